@@ -74,8 +74,8 @@ PROPS = {
    oracle_for_stage={"parse": ["oracle-C07", "oracle-C08"]},
    corpus=["parse.txt"], tables=["Gen/Tables.v: op_prec, keywords, join_types"]),
  "C08": dict(
-   corr=[("prog-mut", "parse", 6000, 60000), ("bytes-rand", "parse", 3000, 30000), ("prog", "parse", 2000, 20000), ("bytes-exh-3", "parse", 0, 0), ("deep", "parse", 200, 2000)],
-   oracle=[("prog-mut", "oracle-C08", 6000, 60000), ("prog", "oracle-C08", 3000, 30000), ("prog-hostile", "oracle-C08", 2000, 20000), ("bytes-rand", "oracle-C08", 2000, 20000)],
+   corr=[("prog-mut", "parse", 6000, 60000), ("bytes-rand", "parse", 3000, 30000), ("prog", "parse", 2000, 20000), ("bytes-exh-3", "parse", 0, 0), ("deep", "parse", 200, 2000), ("eof", "parse", 600, 3000), ("eof", "scan", 600, 3000)],
+   oracle=[("prog-mut", "oracle-C08", 6000, 60000), ("prog", "oracle-C08", 3000, 30000), ("prog-hostile", "oracle-C08", 2000, 20000), ("bytes-rand", "oracle-C08", 2000, 20000), ("eof", "oracle-C08", 600, 3000)],
    oracle_for_stage={"parse": ["oracle-C08", "oracle-C07"]},
    corpus=["parse.txt"], tables=["Gen/Tables.v: op_prec"]),
  "C10": dict(
@@ -98,7 +98,7 @@ PROPS = {
    assumptions=["wall-clock time, Go stack growth and allocation are observed by the harness watchdog (5 s per call), not proved"]),
  "C13": dict(
    corr=[("rules", "compile", 5000, 50000, "status"), ("prog-mut", "compile", 3000, 30000, "status"), ("prog-params", "compile", 2000, 20000, "status"), ("lets", "compile", 1500, 15000, "status")],
-   oracle=[("rules", "oracle-C13", 5000, 50000), ("prog-mut", "oracle-C13", 3000, 30000), ("prog-params", "oracle-C13", 2000, 20000), ("lets", "oracle-C13", 1500, 15000), ("bytes-rand", "oracle-C13", 1500, 15000)],
+   oracle=[("lets", "oracle-C14", 500, 5000), ("rules", "oracle-C13", 5000, 50000), ("prog-mut", "oracle-C13", 3000, 30000), ("prog-params", "oracle-C13", 2000, 20000), ("lets", "oracle-C13", 1500, 15000), ("bytes-rand", "oracle-C13", 1500, 15000)],
    oracle_for_stage={"compile": ["oracle-C13"]},
    corpus=["compile.txt"], tables=["Gen/Tables.v: known_funcs, writer_arity, join_types"]),
  "C14": dict(
